@@ -708,6 +708,9 @@ class An:
                 else:
                     v=('cast',a) if rv['to'].startswith('u') and not src_ty.startswith('u') else a
             elif isinstance(a,IntV): v=a
+            elif str(rv.get('kind','')).startswith('FloatToInt') and self.kind=='dims':
+                v=('unk','float@%d'%st['line'])       # an integer estimate computed in floating point: an opaque scalar
+                if str(rv.get('to','')).startswith('u'): s.facts.append(('le',TERM0,v))
         elif r=='discr': v=('discr',self.deref(s,self.read(s,rv['pl'])))
         elif r=='agg':
             kind=rv['kind']; ops=[self.op(s,o) for o in rv['ops']]
